@@ -492,18 +492,82 @@ theorem gnutar_fields (k : NKind) (n : TNode) (hclean : goClean n.name = n.name)
 
 /-! ### archive/tar's contract, as far as the GNU-tar output leg meets it -/
 
-/-- which headers of `TarWriter` the library refuses: every directory, file and symbolic link that has an
-    extended attribute (their headers ask for `FormatGNU`); a device header asks for no format -/
-theorem gnutar_refused (k : NKind) (n : TNode) :
-    wireRefuses (writerHdr k n) = (decide (k ≠ .device) && !n.xattrs.isEmpty) := by
-  cases k <;> simp [wireRefuses, writerHdr, writerHdrWith]
+theorem rawMode_toNat (m : UInt32) : (rawMode m).toNat = m.toNat := by
+  unfold rawMode; exact UInt32.toNat_toUInt64 m
 
-/-- which modification time the library keeps of a header of `TarWriter` -/
+theorem needsBase256_zero : needsBase256 0 = false := by decide
+
+/-- exactly which headers of `TarWriter` the library refuses: those of nodes that have an extended attribute AND
+    whose mode field (`int64(n.Mode)`: the Go `os.FileMode` bits) or device numbers do not fit seven octal digits -/
+theorem gnutar_refused (k : NKind) (n : TNode) :
+    wireRefuses (writerHdr k n) =
+      (!n.xattrs.isEmpty && (needsBase256 (rawMode n.mode) ||
+        (decide (k = .device) && (needsBase256 n.major || needsBase256 n.minor)))) := by
+  cases hx : n.xattrs with
+  | nil => cases k <;> simp [wireRefuses, writerHdr, writerHdrWith, formatFor, hx, needsBase256_zero]
+  | cons a as =>
+    have e1 : (Fmt.unknown == Fmt.gnu) = false := by decide
+    have e2 : (Fmt.unknown == Fmt.pax) = false := by decide
+    cases k <;> simp [wireRefuses, writerHdr, writerHdrWith, formatFor, hx, needsBase256_zero, e1, e2, Bool.or_assoc]
+
+/-- the writer before 8595654 was refused for every directory, file and link with an extended attribute -/
+theorem gnutar_refused_legacy (k : NKind) (n : TNode) (hk : k ≠ .device) (hx : n.xattrs ≠ []) :
+    wireRefuses (writerHdrLegacy k n) = true := by
+  cases hxs : n.xattrs with
+  | nil => exact absurd hxs hx
+  | cons a as => cases k <;> simp_all [wireRefuses, writerHdrLegacy, writerHdrWith]
+
+/-- a mode made of permission bits and at most the sticky bit fits seven octal digits -/
+theorem rawMode_small (m : UInt32) (h : m &&& ~~~ (0x1ff ||| ModeSticky) = 0) : needsBase256 (rawMode m) = false := by
+  have hm : m = m &&& (0x1ff ||| ModeSticky) := by
+    have : m = (m &&& (0x1ff ||| ModeSticky)) ||| (m &&& ~~~ (0x1ff ||| ModeSticky)) := by
+      simp only [← UInt32.toBitVec_inj, UInt32.toBitVec_and, UInt32.toBitVec_or, UInt32.toBitVec_not]
+      rw [← BitVec.and_or_distrib_left, BitVec.or_not_self, BitVec.and_allOnes]
+    rw [h, UInt32.or_zero] at this
+    exact this
+  have hle : m.toNat ≤ (0x1ff ||| ModeSticky : UInt32).toNat := by
+    rw [hm, UInt32.toNat_and]; exact Nat.and_le_right
+  have : (0x1ff ||| ModeSticky : UInt32).toNat = 1049087 := by decide
+  unfold needsBase256
+  rw [decide_eq_false_iff_not, UInt64.le_iff_toNat_le, rawMode_toNat]
+  have : (2097152 : UInt64).toNat = 2097152 := by decide
+  omega
+
+/-- `tarMode` always fits -/
+theorem tarMode_small (m : UInt32) : needsBase256 (tarMode m) = false := by
+  have hle : (filemodeToStat m &&& 0o7777).toNat ≤ (0o7777 : UInt32).toNat := by
+    rw [UInt32.toNat_and]; exact Nat.and_le_right
+  have h1 : (0o7777 : UInt32).toNat = 4095 := by decide
+  unfold needsBase256 tarMode
+  rw [decide_eq_false_iff_not, UInt64.le_iff_toNat_le, UInt32.toNat_toUInt64]
+  have : (2097152 : UInt64).toNat = 2097152 := by decide
+  omega
+
+/-- with `tarMode` in the `Mode:` fields no header of a directory, file or link would be refused, and that of a
+    device node only for device numbers beyond seven octal digits -/
+theorem gnutar_never_refused_tarMode (k : NKind) (n : TNode)
+    (hdev : k = .device → needsBase256 n.major = false ∧ needsBase256 n.minor = false) :
+    wireRefuses (writerHdrTarMode k n) = false := by
+  have ht := tarMode_small n.mode
+  cases hx : n.xattrs with
+  | nil => cases k <;> simp [wireRefuses, writerHdrTarMode, writerHdrWith, formatFor, hx, needsBase256_zero, ht]
+  | cons a as =>
+    cases k
+    · simp [wireRefuses, writerHdrTarMode, writerHdrWith, formatFor, hx, needsBase256_zero, ht]
+    · simp [wireRefuses, writerHdrTarMode, writerHdrWith, formatFor, hx, needsBase256_zero, ht]
+    · simp [wireRefuses, writerHdrTarMode, writerHdrWith, formatFor, hx, needsBase256_zero, ht]
+    · obtain ⟨h1, h2⟩ := hdev rfl
+      simp [wireRefuses, writerHdrTarMode, writerHdrWith, hx, ht, h1, h2]
+
+/-- which modification time the library keeps of a header of `TarWriter`: exact for a directory, file or link with
+    an extended attribute (PAX header), whole seconds otherwise — cut off, for device nodes rounded -/
 theorem gnutar_mtime_kept (k : NKind) (n : TNode) :
     wireMtime (writerHdr k n).format n.mtime =
       if k = .device then (if 500000000 ≤ n.mtime.nsec then ⟨n.mtime.sec + 1, 0⟩ else ⟨n.mtime.sec, 0⟩)
-      else ⟨n.mtime.sec, 0⟩ := by
-  cases k <;> simp [wireMtime, writerHdr, writerHdrWith]
+      else if n.xattrs = [] then ⟨n.mtime.sec, 0⟩ else n.mtime := by
+  cases hx : n.xattrs with
+  | nil => cases k <;> simp [wireMtime, writerHdr, writerHdrWith, formatFor, hx]
+  | cons a as => cases k <;> simp [wireMtime, writerHdr, writerHdrWith, formatFor, hx]
 
 /-- nanoseconds since the epoch as an integer -/
 def Time.nanos (t : Time) : Int := t.sec * 1000000000 + t.nsec
@@ -518,3 +582,231 @@ theorem wireMtime_close (f : Fmt) (t : Time) (ht : t.nsec < 1000000000) :
   cases f <;> simp only [wireMtime] <;> (try split) <;> simp only [e, e0] <;>
     refine ⟨by omega, by omega, ?_⟩ <;>
     (intro h0; cases t; simp_all)
+
+/-! ### `TarReader.Next` after c6df8d2: PAX global headers are skipped, hard links refused -/
+
+theorem skipGlobal_length_le (es : List Entry) : (skipGlobal es).length ≤ es.length := by
+  induction es with
+  | nil => simp [skipGlobal]
+  | cons e rest ih =>
+    unfold skipGlobal
+    split
+    · exact Nat.le_succ_of_le ih
+    · exact Nat.le_refl _
+
+theorem readerRun_skipGlobal (es : List Entry) : readerRun (skipGlobal es) = readerRun es := by
+  induction es with
+  | nil => rfl
+  | cons e rest ih =>
+    unfold skipGlobal
+    split
+    · rename_i h
+      rw [ih]
+      conv => rhs; unfold readerRun
+      simp [h]
+    · rfl
+
+theorem skipGlobal_head (es : List Entry) (e : Entry) (rest : List Entry) (h : skipGlobal es = e :: rest) :
+    e.1.typeflag ≠ TypeXGlobalHeader := by
+  induction es with
+  | nil => simp [skipGlobal] at h
+  | cons x xs ih =>
+    unfold skipGlobal at h
+    split at h
+    · exact ih h
+    · rename_i hx
+      cases h
+      exact hx
+
+/-- how the stream ended, as a `NextResult` -/
+def endOfRun : Option Bytes → NextResult
+  | none => .libEnd
+  | some name => .hardLink name
+
+/-- calling `Next` until it fails is `readerRun` -/
+theorem readerAllWith_eq_run (fuel : Nat) (es : List Entry) (hf : es.length < fuel) :
+    readerAllWith readerNext fuel none es = ((readerRun es).1, endOfRun (readerRun es).2) := by
+  induction fuel generalizing es with
+  | zero => omega
+  | succ fuel ih =>
+    unfold readerAllWith
+    simp only [readerNext]
+    rw [← readerRun_skipGlobal es]
+    cases hs : skipGlobal es with
+    | nil => simp [readerRun, endOfRun]
+    | cons e rest =>
+      have hg := skipGlobal_head es e rest hs
+      have hl := skipGlobal_length_le es
+      rw [hs] at hl
+      simp only [List.length_cons] at hl
+      by_cases hlink : e.1.typeflag = TypeLink
+      · have hne : TypeLink ≠ TypeXGlobalHeader := by decide
+        simp [hlink, readerRun, hne, endOfRun]
+      · simp only [hlink, if_false]
+        rw [ih rest (by omega)]
+        conv => rhs; unfold readerRun
+        simp [hg, hlink]
+
+theorem readerAll_eq_run (addRoot : Bool) (es : List Entry) :
+    readerAll addRoot es =
+      ((if addRoot then [(rootFile, [])] else []) ++ (readerRun es).1, endOfRun (readerRun es).2) := by
+  unfold readerAll
+  cases addRoot
+  · simp only [if_false, Bool.false_eq_true, List.nil_append]
+    exact readerAllWith_eq_run _ es (by omega)
+  · simp only [if_true]
+    unfold readerAllWith
+    simp only [readerNext]
+    rw [readerAllWith_eq_run _ es (by omega)]
+    rfl
+
+/-- **global headers contribute nothing**: the files `Next` returns, and how the stream ends, are those of the
+    entry list with every PAX global header removed -/
+theorem readerRun_filter (es : List Entry) :
+    readerRun (es.filter fun e => e.1.typeflag ≠ TypeXGlobalHeader) = readerRun es := by
+  induction es with
+  | nil => rfl
+  | cons e rest ih =>
+    by_cases hg : e.1.typeflag = TypeXGlobalHeader
+    · rw [List.filter_cons_of_neg (by simp [hg]), ih]
+      conv => rhs; unfold readerRun
+      simp [hg]
+    · rw [List.filter_cons_of_pos (by simp [hg])]
+      unfold readerRun
+      simp only [hg, if_false]
+      rw [ih]
+
+theorem inputRecs_filter (addRoot : Bool) (es : List Entry) :
+    inputRecs addRoot (es.filter fun e => e.1.typeflag ≠ TypeXGlobalHeader) = inputRecs addRoot es := by
+  unfold inputRecs
+  rw [readerRun_filter]
+
+/-- the first hard link ends the stream with the error; nothing at or after it becomes a record -/
+theorem readerRun_hard_link (pre post : List Entry) (e : Entry) (hl : e.1.typeflag = TypeLink)
+    (hpre : ∀ x ∈ pre, x.1.typeflag ≠ TypeLink) :
+    readerRun (pre ++ e :: post) = ((readerRun pre).1, some e.1.name) ∧ (readerRun pre).2 = none := by
+  induction pre with
+  | nil =>
+    have hne : TypeLink ≠ TypeXGlobalHeader := by decide
+    simp [readerRun, hl, hne]
+  | cons x xs ih =>
+    have hx := hpre x List.mem_cons_self
+    obtain ⟨h1, h2⟩ := ih (fun y hy => hpre y (List.mem_cons_of_mem _ hy))
+    by_cases hg : x.1.typeflag = TypeXGlobalHeader
+    · have e1 : readerRun (x :: xs ++ e :: post) = readerRun (xs ++ e :: post) := by
+        conv => lhs; unfold readerRun
+        simp [hg]
+      have e2 : readerRun (x :: xs) = readerRun xs := by
+        conv => lhs; unfold readerRun
+        simp [hg]
+      rw [e1, e2]; exact ⟨h1, h2⟩
+    · have e1 : readerRun (x :: xs ++ e :: post) =
+          ((readerFile x.1, x.2) :: (readerRun (xs ++ e :: post)).1, (readerRun (xs ++ e :: post)).2) := by
+        conv => lhs; unfold readerRun
+        simp [hg, hx]
+      have e2 : readerRun (x :: xs) = ((readerFile x.1, x.2) :: (readerRun xs).1, (readerRun xs).2) := by
+        conv => lhs; unfold readerRun
+        simp [hg, hx]
+      rw [e1, e2, h1]; exact ⟨rfl, h2⟩
+
+/-! ### `tar()` over a stream that ends with an error -/
+
+/-- with `io.EOF` at the end of the stream `tarOneE` / `tarChildrenE` are `tarOne` / `tarChildren` of
+    `Model/Archive.lean` -/
+theorem tarE_true (fuel : Nat) :
+    (∀ f rest, tarOneE true fuel f rest = tarOne fuel f rest) ∧
+    (∀ dir l n items, tarChildrenE true fuel dir l n items = tarChildren fuel dir l n items) := by
+  induction fuel with
+  | zero =>
+    refine ⟨fun f rest => by simp [tarOneE, tarOne], fun dir l n items => ?_⟩
+    cases l <;> simp [tarChildrenE, tarChildren]
+  | succ fuel ih =>
+    obtain ⟨ih1, ih2⟩ := ih
+    refine ⟨fun f rest => ?_, fun dir l n items => ?_⟩
+    · simp only [tarOneE, tarOne, ih2]
+      rfl
+    · cases l with
+      | nil => simp [tarChildrenE, tarChildren]
+      | cons f rest =>
+        simp only [tarChildrenE, tarChildren, ih1, ih2]
+        rfl
+
+theorem tarStreamE_true (recs : List FileRec) : tarStreamE true recs = tarStream recs := by
+  cases recs with
+  | nil => rfl
+  | cons f rest => simp only [tarStreamE, tarStream, (tarE_true _).1]
+
+/-- a directory's child loop that returns although the stream would end with an error has not read to the end:
+    it stopped at an entry that does not belong to the directory -/
+theorem tarChildrenE_false_rest (fuel : Nat) (dir : Bytes) (l : List FileRec) (n : Nat) (items : List GoodbyeItem)
+    (b : Bytes) (its : List GoodbyeItem) (r : List FileRec)
+    (h : tarChildrenE false fuel dir l n items = some (b, its, r)) : r ≠ [] := by
+  induction fuel generalizing l n items b its with
+  | zero => cases l <;> simp [tarChildrenE] at h
+  | succ fuel ih =>
+    cases l with
+    | nil => simp [tarChildrenE] at h
+    | cons f rest =>
+      simp only [tarChildrenE] at h
+      split at h
+      · cases h; simp
+      · split at h
+        · exact ih _ _ _ _ _ h
+        · split at h
+          · cases h
+          · split at h
+            · cases h
+            · rename_i hc
+              cases h
+              exact ih _ _ _ _ _ hc
+
+/-- `tar()` of a directory that returns although the stream would end with an error stopped before the end -/
+theorem tarOneE_false_dir (fuel : Nat) (f : FileRec) (rest : List FileRec) (b : Bytes) (r : List FileRec)
+    (hk : f.kind = .dir) (h : tarOneE false fuel f rest = some (b, r)) : r ≠ [] := by
+  cases fuel with
+  | zero => simp [tarOneE] at h
+  | succ fuel =>
+    simp only [tarOneE, hk] at h
+    simp only [show (Kind.dir = Kind.other) = False from by simp, if_false] at h
+    split at h
+    · cases h
+    · rename_i hc
+      split at h
+      · cases h
+      · cases h
+        exact tarChildrenE_false_rest _ _ _ _ _ _ _ _ hc
+
+/-! ### the header on the wire -/
+
+theorem wire_some (h h' : TarHdr) (hw : wire h = some h') :
+    h' = { h with mtime := wireMtime h.format h.mtime, xattrs := wireXattrs h.xattrs } ∧ wireRefuses h = false := by
+  unfold wire at hw
+  split at hw
+  · cases hw
+  · rename_i hr
+    cases hw
+    exact ⟨rfl, by simpa using hr⟩
+
+theorem readerFile_with_mtime (h : TarHdr) (t : Time) (xs : Xattrs) :
+    readerFile { h with mtime := t, xattrs := xs } = { readerFile h with mtime := t, xattrs := xs } := rfl
+
+/-- what `TarReader` reads of what `TarWriter` wrote, archive/tar's encoding in between: everything of the header
+    level (`gnutar_fields`, `gnutar_mode`), the modification time as far as the chosen format keeps it -/
+theorem gnutar_wire (k : NKind) (n : TNode) (hmode : NodeModeOK k n.mode) (hclean : goClean n.name = n.name)
+    (h' : TarHdr) (hw : wire (writerHdr k n) = some h') :
+    let f := readerFile h'
+    f.path = n.name ∧ f.name = goBase n.name ∧ f.uid = n.uid ∧ f.gid = n.gid ∧ f.xattrs = wireXattrs n.xattrs ∧
+    f.size = (if k = .file then n.size else 0) ∧ f.linkTarget = (if k = .symlink then n.target else []) ∧
+    f.devMajor = (if k = .device then n.major else 0) ∧ f.devMinor = (if k = .device then n.minor else 0) ∧
+    filemodeToStat f.mode = typeStat (n.mode &&& ModeType) ||| (n.mode &&& 0x1ff) ∧
+    f.mtime = (if k = .device then (if 500000000 ≤ n.mtime.nsec then ⟨n.mtime.sec + 1, 0⟩ else ⟨n.mtime.sec, 0⟩)
+               else if n.xattrs = [] then ⟨n.mtime.sec, 0⟩ else n.mtime) := by
+  obtain ⟨he, _⟩ := wire_some _ _ hw
+  obtain ⟨h1, h2, h3, h4, _, _, h7, h8, h9, h10⟩ := gnutar_fields k n hclean
+  have hm := gnutar_mode k n hmode
+  have ht : (writerHdr k n).mtime = n.mtime := by cases k <;> rfl
+  have hx : (writerHdr k n).xattrs = n.xattrs := by cases k <;> rfl
+  have hk := gnutar_mtime_kept k n
+  subst he
+  rw [readerFile_with_mtime]
+  exact ⟨h1, h2, h3, h4, by rw [← hx], h7, h8, h9, h10, hm, by rw [ht]; exact hk⟩
